@@ -347,6 +347,9 @@ def ofWikiFrom : List Str → List Str → Except WErr (List Entry)
 
 def ofWiki (lines : List Str) : Except WErr (List Entry) := ofWikiFrom lines []
 
+/-- the entry with its description as every reader hands it back (`description.strip()`) -/
+def stripDesc (e : Entry) : Entry := { e with desc := e.desc.map strip }
+
 /-- every tag's parent path is a prefix of the previous tag's path (preorder listing, `all_entries` order) -/
 def Preorder : List Str → List Entry → Bool
   | _, [] => true
@@ -729,6 +732,45 @@ def ofXmlTree (F : List XNode) : List Entry := readForest [] F
 def xmlWF (e : Entry) : Bool :=
   nodupKeys e.attrs && (e.attrs.all fun kv => kv.2.all fun v => !v.isEmpty && v.all (· != ',')) &&
   (match e.desc with | none => true | some d => !d.isEmpty && trimmed d)
+
+/-! ## Tree order of a top-level group (`HedSchemaTagSection._finalize_section`, fix ba6aaf2)
+
+The code keys a dictionary `first` by tag names and looks up `name.rsplit("/", k)[0]`; the model uses the split
+names (paths) instead, which is the same thing because `split("/")` is injective. -/
+
+def pathOf (e : Entry) : List Str := splitOn '/' e.name
+
+/-- position of the first occurrence of a path (`first.setdefault(entry.name, index)`) -/
+def idxOpt : List (List Str) → List Str → Option Nat
+  | [], _ => none
+  | x :: xs, p => if x == p then some 0 else (idxOpt xs p).map (· + 1)
+
+/-- `first.get(name, 0)` -/
+def firstIndex (paths : List (List Str)) (p : List Str) : Nat := (idxOpt paths p).getD 0
+
+/-- `[x.name.rsplit("/", k)[0] for k in range(x.name.count("/"), -1, -1)]`: the ancestors' paths, then the path
+itself (`acc` = segments already consumed) -/
+def prefixPaths (acc : List Str) : List Str → List (List Str)
+  | [] => []
+  | c :: cs => (acc ++ [c]) :: prefixPaths (acc ++ [c]) cs
+
+/-- the sort key of one tag: first positions of its ancestors and of itself -/
+def sortKey (paths : List (List Str)) (p : List Str) : List Nat := (prefixPaths [] p).map (firstIndex paths)
+
+/-- Python's `<=` on lists of integers -/
+def lexLe : List Nat → List Nat → Bool
+  | [], _ => true
+  | _ :: _, [] => false
+  | a :: as, b :: bs => a < b || (a == b && lexLe as bs)
+
+/-- the stable sort of a group that is not re-sorted alphabetically: the given sibling order is kept, every tag
+comes after its parent -/
+def treeOrder (es : List Entry) : List Entry :=
+  es.mergeSort fun a b => lexLe (sortKey (es.map pathOf) (pathOf a)) (sortKey (es.map pathOf) (pathOf b))
+
+/-- hypothesis of `treeOrder_is_preorder`: every tag's parent is in the group -/
+def groupClosed (es : List Entry) : Bool :=
+  es.all fun e => (pathOf e).dropLast.isEmpty || (es.map pathOf).contains (pathOf e).dropLast
 
 /-! ## Struct-sheet description escape of the TSV format -/
 
